@@ -26,6 +26,16 @@ Ties (every run):
             query, the files left behind must be the current query's; result, validity,
             number of runs and the whole directory afterwards vs the extracted model
             (Model/SolveFsModel.v interpreting the regenerated gen_dump / gen_low_level);
+  X-path    real sevm.Path objects through appends / branches / slices / extensions (a path spans
+            transactions), then to_smt2 with and without --cache-solver: the query must entail every
+            condition the path assumed; asserted conditions and the path's solver vs the model;
+  X-inv     python -m halmos --invariant-depth 1: the violating call has a require() on an argument
+            that never reaches the state; every valid model is replayed concretely;
+  X-handler the real _solve_end_to_end_callback on fabricated futures x executor shut down x
+            --early-exit vs the model; nothing may be reported once the executor is shut down;
+  X-kill    handle_assertion_violation -> thread pool -> solve_end_to_end -> PopenExecutor with
+            scripted solvers that are killed mid-answer when another path's valid counterexample
+            shuts the executor down: a valid counterexample is the model of a complete answer;
   X-l3      python -m halmos --dump-smt-directory end to end on fabricated projects with
             overloaded tests, several runs sharing the directory, each test with exactly one
             failing input: every counterexample marked valid must assign that input.
@@ -48,6 +58,8 @@ ASSUMPTIONS = [
     "solver outputs are ASCII; Python's int() leniencies (underscores, signs, surrounding whitespace) are outside the model because halmos_var_pattern only passes [01]+ / [0-9a-fA-F]+ / decimal digits to parse_const_value",
     "the dispatch of _solve_end_to_end_callback on model.is_valid (valid list vs `potentially invalid` warning) is read from __main__.py; it is executed only by the X-l3 runs",
     "the solver reads the file named on its command line while it runs and nothing else writes to the dump directory in between (one process per dump directory; path ids are unique among the paths of one function that are solved concurrently)",
+    "a solver process is killed only by PopenExecutor.shutdown, after its shutdown flag is set, and what a killed process has printed is a prefix of what it would have printed (hypotheses of C04_valid_cex_from_complete_output; exercised by the kill scenarios)",
+    "z3's parse_smt2_string reads the query text as the solver binaries do (used to decide which path conditions a query entails)",
     "the extracted model and driver are faithful to the Coq definitions (extraction is trusted)",
 ]
 PARTIAL = "C04_valid_cex (a valid model, replayed as an input, drives the concrete EVM to the reported panic) needs the C01 reference interpreter and is not part of this module; the check replays valid models on the path constraints with exact arithmetic instead"
